@@ -443,6 +443,11 @@ H("tp_read_one_0e_len1", ["C03", "C10"], "quick", "transport_parameters::read_on
   [("id", "u8", 14), ("len", "u8", 1), ("value", "[u8; 8]"), ("server", "bool")], 10,
   ["accepted", "rejected"], ["TransportParameters::read"],
   "parameter active_connection_id_limit alone with declared length 1: every 8 value bytes")
+H("assembler_ensure_ordering_empty", ["C01"], "quick", "connection::assembler::ensure_ordering_empty",
+  [("bytes_read", "u64")], 4,
+  ["something consumed", "nothing consumed"],
+  ["Assembler::ensure_ordering", "RangeSet::insert", "RangeSet::peek_min"],
+  "an assembler with nothing buffered, every read cursor < 2^62; buffered chunks (heap traversal, defragment) are outside")
 H("assembler_defragment_step", ["C01"], "quick", "connection::assembler::defragment_step",
   [("offset0", "u64"), ("len", "usize"), ("alloc", "usize"), ("defragmented", "bool"), ("frontier", "u64")], 4,
   ["chunk entirely below the frontier", "chunk trimmed", "chunk kept whole"],
